@@ -261,6 +261,8 @@ def in_place_loading(ctx, rep, rule: str) -> None:
 
     loops = [n for n in A.walk_no_nested(up.node) if isinstance(n, ast.For) and _norm(n.iter).endswith(".items()")]
     chain = [st for lp in loops[:1] for st in lp.body if isinstance(st, ast.If) and vvar in A.names_in(st.test) and kvar not in A.names_in(st.test)]
+    if not chain:
+        raise AnalysisError(f"{rule}: kind dispatch of update_param_state_dict_object not found (no if-chain on the state value in the items loop)")
     bad = []
     for label, val in (("0-dim tensor", _T(0)), ("2-dim tensor", _T(2)), ("Tensor subclass instance (DTensor)", _DT(2)), ("0-dim Tensor subclass instance", _DT(0))):
         node = chain[-1] if chain else None
